@@ -464,10 +464,19 @@ func (b *builder) genSpark(n int) {
 	drv := b.pod("spark-driver", nil, sl, b.ownerAnn, "")
 	b.addPod(drv, PodExpect{Mode: "shared", Key: "spark", Source: docTop + " (top owner = driver pod)"})
 	for i := 1; i < n; i++ {
-		ex := b.pod(fmt.Sprintf("spark-exec-%d", i), drv, map[string]string{"spark-app-name": "app", "spark-app-selector": sel}, nil, "")
+		// same label set as the driver: driver and executors are treated as one template (see Assumptions)
+		ex := b.pod(fmt.Sprintf("spark-exec-%d", i), drv, sl, nil, "")
 		b.addPod(ex, PodExpect{Mode: "shared", Key: "spark", Source: docTop + " (top owner = driver pod)"})
 	}
 }
+
+// jobDocumentedAsOneGroup: docs/developer/pod-grouper.md says about Jobs "Creates a PodGroup matching the Job's identity"
+// (singular; Deployment is the only kind documented as one group per pod) and 'Top Owner Identification' says pods of the
+// same parent workload are grouped together. job_grouper.go names the group pg-<POD name>-<job uid>, i.e. one per pod, and
+// job_grouper_test.go asserts the names of two pods of one Job differ - so the code is deliberate and the documentation /
+// property statement disagree with it. With true the check reports this (Sig grouping:siblings-split:Job); set to false to
+// treat Job as a per-pod kind.
+const jobDocumentedAsOneGroup = true
 
 func (b *builder) genJob(n int, wrap Obj) Obj {
 	par := n
@@ -481,11 +490,23 @@ func (b *builder) genJob(n int, wrap Obj) Obj {
 	job := b.object("batch/v1", "Job", "job-a", cp(b.ownerLabels), cp(b.ownerAnn), wrap)
 	job["spec"] = spec
 	b.add(job)
-	b.sc.Detail = fmt.Sprintf("parallelism=%d pods=%d", par, n)
+	legacy := false
+	if wrap == nil && par <= 1 && b.p(0.25) {
+		// a PodGroup with the legacy name (pg-<job name>-<job uid>) left by an older version; used when search-legacy-pg is on
+		legacy = true
+		b.add(Obj{"apiVersion": "scheduling.run.ai/v2alpha2", "kind": "PodGroup",
+			"metadata": Obj{"name": fmt.Sprintf("pg-job-a-%s", uidOf(job)), "namespace": ns, "uid": b.newUID("legacy-pg"),
+				"ownerReferences": []any{ownerRef(job)}, "labels": Obj{"legacy": "true"}},
+			"spec": Obj{"minMember": 1, "queue": "legacy-queue", "priorityClassName": "train"}})
+	}
+	b.sc.Detail = fmt.Sprintf("parallelism=%d pods=%d legacyPodGroup=%v", par, n, legacy)
 	b.sc.BumpTarget = refOf(job)
 	for i := 0; i < n; i++ {
-		b.addPod(b.pod(fmt.Sprintf("job-a-%s", suffix(b.r)), job, map[string]string{"job-name": "job-a"}, nil, ""),
-			PodExpect{Mode: "shared", Key: "job-a", Source: "docs/developer/pod-grouper.md 'Job/BatchJob Grouping': creates a PodGroup matching the Job's identity; " + docTop})
+		e := PodExpect{Mode: "shared", Key: "job-a", Source: "docs/developer/pod-grouper.md 'Job/BatchJob Grouping': creates a PodGroup matching the Job's identity; " + docTop}
+		if !jobDocumentedAsOneGroup {
+			e = PodExpect{Mode: "none", Key: "job-a", Source: "job_grouper.go: pg-<pod name>-<job uid> (undocumented)"}
+		}
+		b.addPod(b.pod(fmt.Sprintf("job-a-%s", suffix(b.r)), job, map[string]string{"job-name": "job-a"}, nil, ""), e)
 	}
 	ge := GroupExpect{MinMember: i32(1), Source: "docs/developer/pod-grouper.md 'Job/BatchJob Grouping': MinMember 1, priority class train"}
 	if wrap == nil {
